@@ -83,6 +83,10 @@ func NewListener(cfg *service.Listener, stats *DownstreamStats, logger log.Logge
 }
 
 func (l *listener) Serve() error {
+	// Stop waits for done, it must be closed on every return path, also
+	// when the listener is stopped or drained before the port was bound.
+	defer close(l.done)
+
 	ip := l.cfg.GetAddress().GetIp()
 	port := l.cfg.GetAddress().GetPort()
 	address := fmt.Sprintf("%s:%d", ip, port)
@@ -122,7 +126,6 @@ func (l *listener) Serve() error {
 
 	l.connsWg.Wait()
 	l.Infof("all conns done")
-	close(l.done)
 	return nil
 }
 
